@@ -108,6 +108,25 @@ impl<T> Versioned<T> {
     }
 }
 
+#[cfg(feature = "verif-hooks")]
+impl<T> Versioned<T> {
+    /// The versions recorded, oldest first, with whether each holds a value.
+    pub fn verif_versions(&self) -> Vec<(u32, bool)> {
+        self.data
+            .iter()
+            .map(|item| (item.0.verif_int(), item.1.is_some()))
+            .collect()
+    }
+}
+
+#[cfg(feature = "verif-hooks")]
+impl Version {
+    /// The version number as an integer.
+    pub fn verif_int(self) -> u32 {
+        self.0.into_int()
+    }
+}
+
 impl<T> Default for Versioned<T> {
     fn default() -> Self {
         Self::new()
